@@ -582,7 +582,7 @@ mod sh {
     }
 
     /// the property's own oracle on one execution
-    pub fn oracle(kind: &str, input: &str, drop_after: Option<usize>, run: &Run) -> String {
+    pub fn oracle(kind: &str, workers: u32, input: &str, drop_after: Option<usize>, run: &Run) -> String {
         if let Some(p) = &run.panic {
             if p.contains("deadlock") {
                 return if run.progress == 0 {
@@ -596,9 +596,10 @@ mod sh {
         if run.progress != 3 {
             return "FAIL execution incomplete".into();
         }
-        let workers_max = 256usize;
+        // C10: never more worker threads than the caller allowed (the crate clamps the request into 1..=256)
+        let workers_max = (workers as usize).clamp(1, 256);
         if run.spawned > workers_max {
-            return "FAIL more workers than the maximum".into();
+            return format!("FAIL {} worker threads were spawned, the limit was {}", run.spawned, workers_max);
         }
         match kind {
             "lzma2r" | "lzipr" => {
@@ -701,7 +702,7 @@ mod sh {
         } else {
             outcome_string(kind, &run)
         };
-        (obs, oracle(kind, input, dropa, &run))
+        (obs, oracle(kind, workers, input, dropa, &run))
     }
 
     /// a model-produced schedule (one entry per scheduling decision) on the real code
@@ -713,7 +714,7 @@ mod sh {
         if std::env::var("MT_DEBUG").is_ok() {
             eprintln!("events: {}", trace_string(&run.events));
         }
-        (outcome_string(kind, &run), oracle(kind, input, dropa, &run))
+        (outcome_string(kind, &run), oracle(kind, workers, input, dropa, &run))
     }
 
     // ---------------------------------------------------------------------------------------------
@@ -822,6 +823,20 @@ mod sh {
             let spec = format!("text:{}:{}:p2048", rng.below(1 << 30), ops);
             scen.push(("lzma2w".into(), w, spec, "end".into(), "lzma2w.preset_dict".into()));
         }
+        // back-pressure: one write of many units with few workers, so that the queue fills (>= 4 units
+        // waiting) while every worker is busy - the number of worker threads must stay <= the limit
+        for si in 0..(if thorough { 8 } else { 4 }) {
+            let kind = if si % 2 == 0 { "lzma2w" } else { "lzipw" };
+            let w = 1 + (si as u32 / 2) % 2;
+            let nunits = 8 + rng.below(4) as usize;
+            let spec = format!("constant:{}:w{}", rng.below(1 << 30), nunits * UNIT);
+            // the schedule that reaches the condition for certain: the caller runs whenever it can, the
+            // workers only when it is blocked (a model-step schedule of zeros, completed deterministically)
+            // caller program for the model: one full-unit iteration of write()'s loop per unit, then finish
+            cmds.push(format!("mt_sched {} {} {} end {} prog={},F", kind, w, spec, vec!["0"; 400].join(","), vec!["W"; nunits].join(",")));
+            dist.bump("scenario.backpressure_caller_first");
+            scen.push((kind.into(), w, spec, "end".into(), format!("{}.backpressure", kind)));
+        }
         for si in 0..(if thorough { 24 } else { 8 }) {
             let kind = if si % 2 == 0 { "lzma2w" } else { "lzipw" };
             let w = 1 + rng.below(4) as u32;
@@ -854,6 +869,8 @@ mod sh {
         for (kind, w, input, dropa, label) in &scen {
             let d = parse_drop(dropa);
             let mut runs: Vec<(Run, &str)> = Vec::new();
+            // the back-pressure condition needs the coordinator to run ahead of busy workers: more schedules
+            let per = if label.ends_with("backpressure") { per * 4 } else { per };
             for i in 0..per {
                 let seed = rng.next();
                 if i % 3 == 2 {
@@ -981,7 +998,7 @@ mod sh {
             }
             _ => outcome_string("lzma2r", &run),
         };
-        (obs, oracle("lzma2r", a[1], None, &run))
+        (obs, oracle("lzma2r", 1, a[1], None, &run))
     }
 
     /// scan_members of LZIPReaderMT (runs in new()): member_count() or the error kind
